@@ -2,7 +2,7 @@
 # tools/confirm_mutant.sh <Cxx> <A|B>  -- confirm a sub-agent's seeded change in its scratch worktree
 # (tests still pass with it; demo fails with it and passes without it) and file it under seeded/.
 set -u
-prop="$1"; m="$2"; wt=/tmp/mut/$prop; src=/tmp/mut/out/$prop/$m; dst=/verif/seeded/$prop-$m
+prop="$1"; m="$2"; base="${MUT_BASE:-/tmp/mut}"; wt=$base/$prop; src=$base/out/$prop/$m; dst=/verif/seeded/$prop-$m
 [ -d "$wt" ] || git -C /repo worktree add -q --detach "$wt" HEAD
 git -C "$wt" checkout -q -- . ; git -C "$wt" clean -fdq
 cd "$wt" || exit 3
@@ -21,7 +21,7 @@ import json,sys,os
 prop,m,tests=sys.argv[1:4]
 d=f"/verif/seeded/{prop}-{m}"
 meta={"id":f"{prop}-{m}","breaks_property":prop,"needs_to_manifest":open(d+"/notes.txt").read().strip(),
- "confirmed":{"worktree":f"/tmp/mut/{prop} (scratch git worktree of /repo HEAD, removed afterwards)",
+ "confirmed":{"worktree":f"scratch git worktree of /repo HEAD under /tmp (removed afterwards)",
   "test_suite_with_change":tests,"demo_without_change":"exit 0","demo_with_change":"non-zero exit (assertion)",
   "commands":[f"git -C /tmp/mut/{prop} apply patch.diff","cd /tmp/mut/%s && /venv/bin/python -m pytest -q -p no:cacheprovider --timeout=900"%prop,f"PYTHONPATH=/tmp/mut/{prop} /venv/bin/python demo.py"]},
  "detected_by":None}
